@@ -143,8 +143,9 @@ class GlomError(Exception):
             if getattr(self, '_scope', None) is not None:
                 return GlomError.__str__(self)
             return exc_type.__str__(self)
-        exc_wrapper_type = type(f"GlomError.wrap({exc_type.__name__})", bases, {'__str__': __str__})
         try:
+            # (a class may refuse to be subclassed)
+            exc_wrapper_type = type(f"GlomError.wrap({exc_type.__name__})", bases, {'__str__': __str__})
             wrapper = exc_wrapper_type(*exc.args)
             # a constructor that derives its args or attributes from its
             # parameters (e.g. builds a message) has now run on its own
@@ -153,7 +154,7 @@ class GlomError(Exception):
             wrapper.__dict__.update(exc.__dict__)
             wrapper.__wrapped = exc
             return wrapper
-        except Exception:  # maybe exception can't be re-created
+        except Exception:  # maybe exception can't be subclassed or re-created
             return exc
 
     def _set_wrapped(self, exc):
